@@ -9,13 +9,14 @@ from . import common, elements, c17, rt
 
 PROP = 'C18'
 MOD = 'mirsym.checks.c18'
-PROPS = "s?: string; n?: number; fn?: () => void; ff?: Function; 'q-k'?: string; u?: string | number; cb?(): number; o?: object; p?: Promise<string>; fu?: (() => void) | string; 'qq'?: string; 'qf'?(): number; 'qn'?: number"
-PRE = "const v1 = 1, f1 = () => 2, s = 'sh', fn = () => {{}}, ff = () => 3, kk = 's', qq = 'shq';\nconst dyn: any = {{}};\n"
+PROPS = "s?: string; n?: number; fn?: () => void; ff?: Function; 'q-k'?: string; u?: string | number; cb?(): number; o?: object; p?: Promise<string>; fu?: (() => void) | string; 'qq'?: string; 'qf'?(): number; 'qn'?: number; fa?: ((id: number) => void) | any; fk?: unknown | (() => void); fb?: (() => void) | boolean; fi?: (() => void) & {{ tag?: string }}"
+PRE = "const v1 = 1, f1 = () => 2, s = 'sh', fn = () => {{}}, ff = () => 3, fa = () => 4, kk = 's', qq = 'shq';\nconst dyn: any = {{}};\n"
 ENTRIES = {
     'lit': "s: 'hi'", 'num': 'n: 1', 'neg': 'n: -1', 'tpl': 's: `t`', 'expr': 'n: v1', 'call': 's: f1()', 'arr': 'o: [1, 2]', 'obj': 'o: {{ a: 1 }}', 'null': 'o: null',
     'fnarrow': 'fn: () => {{}}', 'fnident': 'fn: f1', 'ffarrow': 'ff: () => 1', 'fnfn': 'fn: function () {{}}', 'fuarrow': 'fu: () => {{}}', 'short': 's', 'shortfn': 'fn', 'tqshort': 'qq',
     'getter': "get s() {{ return 'g' }}", 'method': 'cb() {{ return 1 }}', 'amethod': "async p() {{ return 'x' }}", 'quoted': "'q-k': 'x'", 'quoted2': "'s': 'x'",
     'tq': "qq: 'y'", 'tqexpr': 'qq: f1()', 'tqget': "get qq() {{ return 'g' }}", 'tqmethod': 'qf() {{ return 3 }}', 'tqcomp': "['qq']: 'c'", 'tqnum': 'qn: 2',
+    'faarrow': 'fa: () => {{}}', 'faident': 'fa: f1', 'fkident': 'fk: f1', 'fkget': 'get fk() {{ return f1 }}', 'fbident': 'fb: f1', 'fiident': 'fi: f1', 'fashort': 'fa',
     'fngetter': 'get fn() {{ return f1 }}', 'ffshort': 'ff', 'fncall': 'fn: f1()', 'fucall': 'fu: f1()',
     'gmethod': '*cb() {{ yield 1 }}', 'agmethod': 'async *cb() {{ yield 2 }}', 'gmethodq': "*'qf'() {{ yield 3 }}", 'amethodcb': 'async cb() {{ return 4 }}',
     'complit': "['s']: 'x'", 'compnum': "[1]: 'x'", 'extra': 'zzz: 1', 'methodq': "'cb'() {{ return 2 }}",
@@ -162,7 +163,7 @@ def oracle(env):
         k = en[1].py()
         inner = denote.lit_entries(denote.E(en[2]).fields[0])
         de = [x for x in inner if x[0] == 'kv' and isinstance(x[1], SStr) and x[1].is_concrete() and x[1].py() == 'default']
-        tl, _ = c17.emitted_types(ctx, en[2])
+        tl, _ = c17.emitted_types(ctx, en[2], raw=True)
         if k not in W:
             obs.append(Obligation('a prop without a written default gets none', len(de) == 0, {'prop': k}))
             continue
